@@ -199,6 +199,12 @@ class Agent:
             if self.hook:
                 out = self.hook(self, msg, out) or out
             return out
+        if getattr(self, "hook_v3", None):
+            forced = self.hook_v3(self, msg, None)
+            if forced is not None:
+                entry["kind"] = "forced-report"
+                self.log.append(entry)
+                return forced
         user = v3.users.get(msg["user"])
         if user is None:
             entry["kind"] = "unknown-user"
